@@ -2155,6 +2155,9 @@ func (s *SubscriptionSource) HashTriggerInput(input []byte, xxh *xxhash.Digest) 
 // Start the subscription. The updater is called on new events. Start needs to be called in a separate goroutine.
 func (s *SubscriptionSource) Start(ctx *resolve.Context, headers http.Header, input []byte, updater resolve.SubscriptionUpdater) error {
 	var options GraphQLSubscriptionOptions
+	// Like Source.Load: a variable the client left undefined is rendered as null and listed as undefined in the
+	// input; it is not sent upstream, so that the subgraph applies its default instead of an explicit null.
+	input = (&Source{}).compactAndUnNullVariables(input)
 	err := json.Unmarshal(input, &options)
 	if err != nil {
 		return err
